@@ -57,7 +57,7 @@ GEN = {
             "the rule x type matrix and random structs on the adversarial value lattice (zero, -1, min, max, NaN, +-Inf, nil, empty, invalid UTF-8, DEL/control bytes) under recover(): Validate, ValidateT, ValidateContext with every cancellation point, nil receiver"),
     "C19": ("all", "alloc", "Gvlean.Props.C19", ["Props.c19", "Props.c19_only_failing_branches"], ["alloc"],
             "every (non-CEL marker, documented type) scenario and the random multi-field structs; testing.AllocsPerRun(20) around Validate(), ValidateT(t) and ValidateContext(Background) for every value whose observed result is nil"),
-    "C09": ("c09", "", "Gvlean.Props.C09", ["Props.c09_never_accepted", "Props.c09_coverage", "Props.c09_inapplicable", "Props.c09_every_name"], ["spec", "gen_fail", "build"],
+    "C09": ("c09", "", "Gvlean.Props.C09", ["Props.c09_never_accepted", "Props.c09_coverage", "Props.c09_inapplicable", "Props.c09_every_name", "Props.c09_nest_marker", "Props.c09_nest_marker_never_accepted", "Props.c09_nest_marker_rv", "Props.c09_nest_marker_specN", "Props.c09_specN_conservative", "Props.c09_specN_clean", "Props.c09_nest_required_struct_member"], ["spec", "gen_fail", "build"],
             "declaration shapes: struct-level vs per-field placement of the same markers on identical values, struct-level markers over fields of every type (inapplicable ones must be left unconstrained), 1..5 markers per field, up to 100 fields, fields before/after nested structs; markers on nested structs incl. `A, B struct{...}` declared inside another nested struct (multiset of (rule, value) against the Spec of the pushed-down declaration); prose after markers"),
 }
 
